@@ -828,9 +828,49 @@ def operator_calls(tree):
             for a in st.names:
                 if a.name == "operator":
                     mods.add(a.asname or "operator")
-    if not names and not mods:
-        return 0
     n = 0
+
+    class G(ast.NodeTransformer):
+        # getattr(x, "name") with a literal name is x.name
+        def visit_Call(self, node):
+            nonlocal n
+            self.generic_visit(node)
+            if isinstance(node.func, ast.Name) and node.func.id == \
+                    "getattr" and len(node.args) == 2 and not \
+                    node.keywords and isinstance(
+                        node.args[1], ast.Constant) and isinstance(
+                            node.args[1].value, str) and \
+                    node.args[1].value.isidentifier():
+                n += 1
+                return ast.copy_location(ast.Attribute(
+                    value=node.args[0], attr=node.args[1].value,
+                    ctx=ast.Load()), node)
+            return node
+    G().visit(tree)
+    # setattr(x, "name", v) as a statement with a literal name is x.name = v
+    for owner in list(ast.walk(tree)):
+        for fld in ("body", "orelse", "finalbody"):
+            lst = getattr(owner, fld, None)
+            if not isinstance(lst, list):
+                continue
+            for i, st in enumerate(lst):
+                if isinstance(st, ast.Expr) and isinstance(
+                        st.value, ast.Call) and isinstance(
+                            st.value.func, ast.Name) and \
+                        st.value.func.id == "setattr" and len(
+                            st.value.args) == 3 and not st.value.keywords \
+                        and isinstance(st.value.args[1], ast.Constant) \
+                        and isinstance(st.value.args[1].value, str) and \
+                        st.value.args[1].value.isidentifier():
+                    new = ast.Assign(targets=[ast.Attribute(
+                        value=st.value.args[0], attr=st.value.args[1].value,
+                        ctx=ast.Store())], value=st.value.args[2])
+                    ast.copy_location(new, st)
+                    ast.fix_missing_locations(new)
+                    lst[i] = new
+                    n += 1
+    if not names and not mods:
+        return n
 
     class T(ast.NodeTransformer):
         def visit_Call(self, node):
@@ -1791,11 +1831,14 @@ def _inline_in_function(func, owner, classes, modfuncs, known, qual=None):
 
 
 # ------------------------------------------------------------ unrolling
-def unroll_literal_loops(func, known_locals):
+def unroll_literal_loops(func, known_locals, class_consts=None):
     """`for a, b in ((x1, y1), (x2, y2)): BODY` with loop variables the
     reference does not know and no break/continue in BODY: the iterations
-    are written out (a duplicated block that was folded into a loop)"""
+    are written out (a duplicated block that was folded into a loop).
+    `class_consts`: literal tuples bound at class level (name -> node), for
+    loops over `self.NAME` / `cls.NAME`"""
     n = 0
+    class_consts = class_consts or {}
 
     def visit(lst):
         nonlocal n
@@ -1828,6 +1871,32 @@ def unroll_literal_loops(func, known_locals):
                 target=st.target, iter=ast.Tuple(
                     elts=[ast.Constant(value=c) for c in st.iter.value],
                     ctx=ast.Load()), body=st.body, orelse=st.orelse), st)
+            ast.fix_missing_locations(st)
+        if isinstance(st, ast.For):
+            # (a, b) + (c, d): one literal
+            def flat(e):
+                if isinstance(e, (ast.Tuple, ast.List)):
+                    return list(e.elts)
+                if isinstance(e, ast.BinOp) and isinstance(e.op, ast.Add):
+                    a, b = flat(e.left), flat(e.right)
+                    if a is not None and b is not None:
+                        return a + b
+                return None
+            if isinstance(st.iter, ast.BinOp):
+                el = flat(st.iter)
+                if el is not None:
+                    st = ast.copy_location(ast.For(
+                        target=st.target, iter=ast.Tuple(
+                            elts=el, ctx=ast.Load()), body=st.body,
+                        orelse=st.orelse), st)
+                    ast.fix_missing_locations(st)
+        if isinstance(st, ast.For) and isinstance(
+                st.iter, ast.Attribute) and isinstance(
+                    st.iter.value, ast.Name) and st.iter.value.id in (
+                        "self", "cls") and st.iter.attr in class_consts:
+            st = ast.copy_location(ast.For(
+                target=st.target, iter=_clone(class_consts[st.iter.attr]),
+                body=st.body, orelse=st.orelse), st)
             ast.fix_missing_locations(st)
         if not isinstance(st, ast.For) or st.orelse or not isinstance(
                 st.iter, (ast.Tuple, ast.List)) or not (
@@ -2073,6 +2142,7 @@ def inline_temporaries(func, known_locals):
                                                  ast.With, ast.Assert,
                                                  ast.Raise)):
                     continue
+                inside = []     # what runs before a use inside the last
                 if isinstance(holder[last], (ast.If, ast.While, ast.For,
                                              ast.With)):
                     hd = {ast.If: "test", ast.While: "test", ast.For: "iter",
@@ -2081,7 +2151,21 @@ def inline_temporaries(func, known_locals):
                     heads = head if isinstance(head, list) else [head]
                     if not all(any(y is l for h in heads
                                    for y in ast.walk(h)) for l in loads):
-                        continue
+                        # uses in the body of an `if` / `with` (no way
+                        # back up): what stands before the last use is
+                        # crossed as well
+                        if has_call or isinstance(holder[last], (
+                                ast.While, ast.For)) or any(
+                                isinstance(y, (ast.While, ast.For,
+                                               ast.AsyncFor) + FUNC)
+                                for y in ast.walk(holder[last])):
+                            continue
+                        pos = max((l.lineno, l.col_offset) for l in loads
+                                  if hasattr(l, "lineno"))
+                        inside = [y for y in ast.walk(holder[last])
+                                  if hasattr(y, "lineno") and (
+                                      y.lineno, y.col_offset) < pos
+                                  and not any(y is l for l in loads)]
                 moved = False
                 # an attribute read is invalidated by a store to an
                 # attribute of the same name; an item read by any item
@@ -2100,8 +2184,8 @@ def inline_temporaries(func, known_locals):
                             v_roots.add(r_.id)
                 v_items = any(isinstance(y, (ast.Subscript, ast.Starred))
                               for y in ast.walk(v))
-                for c in crossing:
-                    for y in ast.walk(c):
+                for c in list(crossing) + [None]:
+                    for y in (ast.walk(c) if c is not None else inside):
                         if isinstance(y, (ast.Await, ast.Yield,
                                           ast.YieldFrom)):
                             moved = True
